@@ -21,7 +21,8 @@ Require Import Cirbo.Model.ArithSub Cirbo.Model.ArithSum2 Cirbo.Model.ArithSumN 
   Cirbo.Model.ArithGen Cirbo.Model.SumCases.
 Require Import Cirbo.Proofs.BuilderFacts Cirbo.Proofs.ArithFacts Cirbo.Proofs.ArithGenFacts
   Cirbo.Proofs.ArithSumCells Cirbo.Proofs.ArithSumNFacts Cirbo.Proofs.ArithSumTopFacts
-  Cirbo.Proofs.ArithSumPow2Facts Cirbo.Proofs.ArithSumWFacts Cirbo.Proofs.ArithSumGenFacts
+  Cirbo.Proofs.ArithSumPow2Facts Cirbo.Proofs.ArithSumWFacts Cirbo.Proofs.ArithSumWCount
+  Cirbo.Proofs.ArithSumGenFacts
   Cirbo.Proofs.ArithSumStruct Cirbo.Proofs.ArithSumStructA Cirbo.Proofs.ArithSumStructB
   Cirbo.Proofs.ArithSumStructC Cirbo.Proofs.ArithSumFinal.
 Open Scope Z_scope.
@@ -149,12 +150,18 @@ Theorem C07_bit_counters_return_upto40 :
 Proof. exact bit_counters_struct_upto40. Qed.
 
 (* ---- weighted sums, ALL weight vectors -------------------------------------------------------------- *)
-(* sum_i val(bit_i) 2^level_i = sum_j val(x_j) 2^w_j, levels strictly increasing *)
+(* sum_i val(bit_i) 2^level_i = sum_j val(x_j) 2^w_j, levels strictly increasing; gate-count bounds
+   as documented after fixes/D27.patch: AIG gates <= 7 n - 3 m, XAIG gates <= 5 n - 2 m *)
+Theorem C07_weighted_documented_bounds : forall b g m n,
+  weighted_bound b g m n <->
+  match b with AIG => (g + 3 * m <= 7 * n)%nat | XAIG => (g + 2 * m <= 5 * n)%nat end.
+Proof. intros []; reflexivity. Qed.
+
 Theorem C07_sum_n_weighted_bits_exact : forall fresh basis inp s res s',
   run fresh (add_sum_n_weighted_bits basis inp) s = Ok (res, s') ->
   exists b, resolve_basis basis = Ok b /\
     ext (bc s) (bc s') /\ inputs (bc s') = inputs (bc s) /\ outputs (bc s') = outputs (bc s) /\
-    (exists g, adds (t_of b) (bc s) (bc s') g /\ (b = AIG -> (g + 3 * length res <= 7 * length inp)%nat)) /\
+    (exists g, adds (t_of b) (bc s) (bc s') g /\ weighted_bound b g (length res) (length inp)) /\
     incr res /\
     forall asg vs, bvals (bc s) asg (map snd inp) vs ->
       exists rv, bvals (bc s') asg (map snd res) rv /\ wvalue (map fst res) rv = wvalue (map fst inp) vs.
@@ -178,8 +185,20 @@ Theorem C07_levels_pairwise_distinct : forall res,
   forall i j a b, (i < j)%nat -> nth_error (map fst res) i = Some a -> nth_error (map fst res) j = Some b -> (a < b)%N.
 Proof. exact levels_distinct. Qed.
 
-(* the documented bound of the efficient generator in XAIG, gates <= 4.5 n - 2 m, by kernel
-   computation for every weight vector of length <= 6 over the weights 0..3 (bare circuit) *)
+(* DEFECT D27: the bound documented in the pinned source for the efficient weighted sum in XAIG,
+   gates <= 4.5 n - 2 m, is false: 25 bits (six of weight 2^0, three of each weight 2^1..2^6, one
+   of weight 2^7) need 4.5 n - 2 m + 0.5 gates *)
+Theorem C07_weighted_documented_bound_refuted :
+  exists c res s',
+    bare (length refuting_weights) = Ok c /\
+    run hex_label (add_sum_n_weighted_bits (BEnum XAIG)
+                     (combine refuting_weights (in_labels (length refuting_weights) 0))) (mkB c 1) = Ok (res, s') /\
+    (9 * N.of_nat (length refuting_weights) <
+     2 * N.of_nat (length (added c (bc s'))) + 4 * N.of_nat (length res))%N.
+Proof. exact weighted_documented_bound_refuted. Qed.
+
+(* (the tighter 4.5 n - 2 m does hold, by kernel computation, for every weight vector of length <= 6
+   over the weights 0..3 on the bare circuit) *)
 Theorem C07_weighted_xaig_size_small_vectors : forall ws, In ws small_vectors ->
   exists c res s',
     bare (length ws) = Ok c /\
@@ -222,7 +241,11 @@ Theorem C07_generate_sum_weighted_bits_efficient : forall fresh k0 ins weights b
   generate_sum_weighted_bits_efficient fresh k0 ins weights basis = Ok c -> length weights = length ins ->
   exists b, resolve_basis basis = Ok b /\
     inputs c = ins /\ only_basis (t_of b) c /\
-    (b = AIG -> (length (gates c) + 3 * length (outputs c) <= 8 * length ins)%nat) /\
+    (exists g, length (gates c) = (length ins + g)%nat /\
+               match b with
+               | AIG => (g + 3 * length (outputs c) <= 7 * length ins)%nat
+               | XAIG => (g + 2 * length (outputs c) <= 5 * length ins)%nat
+               end) /\
     exists res, outputs c = map snd res /\ incr res /\
       forall asg bs, assigns asg ins bs ->
         exists rv, bvals c asg (outputs c) rv /\ wvalue (map fst res) rv = wvalue weights bs.
